@@ -206,6 +206,22 @@ theorem rdHeaderPart_raw (fl : Flavor) (m : UMesh) (hw : WellFormed m = true) (r
   rw [this]
   rfl
 
+theorem partHeaderHazard_wf (m : UMesh) (hw : WellFormed m = true) (np : Nat) (hnp2 : np < 2 ^ 31) :
+    partHeaderHazard np (hdrOf m) = false := by
+  obtain ⟨hn, hk⟩ := (wf_iff m).1 hw
+  unfold partHeaderHazard
+  rw [Bool.or_eq_false_iff]
+  constructor
+  · rw [hdrOf_getD0]; simp only [decide_eq_false_iff_not]; omega
+  · rw [List.any_eq_false]
+    intro x hx
+    simp only [hdrOf, List.map_cons, List.map_nil, List.mem_cons, List.not_mem_nil, or_false] at hx
+    have h1 := (hk .tri).1; have h2 := (hk .qua).1; have h3 := (hk .tet).1
+    have h4 := (hk .pyr).1; have h5 := (hk .pri).1; have h6 := (hk .hex).1
+    simp only [UMesh.get] at h1 h2 h3 h4 h5 h6
+    simp only [decide_eq_true_eq]
+    rcases hx with rfl | rfl | rfl | rfl | rfl | rfl | rfl <;> omega
+
 /-- **the parallel reader on what a writer lays out**, for every flavour, rank count ≥ 1, chunk size ≥ 1 -/
 theorem partRead_encodeRaw (fl : Flavor) (m : UMesh) (hw : WellFormed m = true) (np : Nat) (hnp : 1 ≤ np)
     (hnp2 : np < 2 ^ 31) (chunk : Nat) (hc1 : 1 ≤ chunk) (hc2 : 72 * chunk ≤ 2 ^ 30) :
@@ -223,10 +239,9 @@ theorem partRead_encodeRaw (fl : Flavor) (m : UMesh) (hw : WellFormed m = true) 
   rw [← hraw] at hh
   rw [hh]
   simp only [hdrOf_getD0, Int.toNat_natCast]
-  have hsmall : ¬ ((m.nodes.length : Int) + (np : Int) ≥ 2 ^ 63 ∨ (m.nodes.length : Int) ≤ -(2 ^ 63 : Int)) := by
-    have := ((wf_iff m).1 hw).1
-    omega
-  rw [if_neg hsmall]
+  have hsmall : partHeaderHazard np (hdrOf m) = false := partHeaderHazard_wf m hw np hnp2
+  rw [hsmall]
+  simp only [Bool.false_eq_true, if_false]
   have hv : ∀ rest, rdVerts fl m.nodes.length (secNodes fl m ++ rest) = .ok (m.nodes, rest) :=
     fun rest => rdVerts_flatMap fl m.nodes rest
   rw [hv]
